@@ -28,7 +28,8 @@ class ProgGen:
     """Generates mostly type-correct, always terminating, deterministic programs."""
 
     def __init__(self, rng, allow_input=True, helper_module=None, allow_raise=True,
-                 allow_sys=True, name_prefix=''):
+                 allow_sys=True, name_prefix='', data_file=None):
+        self.data_file = data_file
         self.r = rng
         self.allow_input = allow_input
         self.helper_module = helper_module     # (module_name, [function names taking 1 int])
@@ -526,9 +527,32 @@ class ProgGen:
         self.vars['int'].append(v)
         return ['%s = %s' % (v, r.choice(['True', 'False', 'len("abc")', 'round(2.5)', 'ord("a")']))]
 
+    def file_stmt(self):
+        """reading a data file that is part of the submission (pedal serves it from memory; allowed, not blocked)"""
+        r = self.r
+        name = self.data_file
+        c = r.randrange(5)
+        if c == 0:
+            v = self.fresh('str')
+            out = ['fh = open(%r)' % name, '%s = fh.read()' % v, 'fh.close()', "print(len(%s), %s.split('\\n')[0])" % (v, v)]
+            self.vars['str'].append(v)
+            return out
+        if c == 1:
+            return ['with open(%r) as fh:' % name, '    for row in fh:', '        print(row.strip().upper())']
+        if c == 2:
+            v = self.fresh('list')
+            out = ['%s = [len(row) for row in open(%r).readlines()]' % (v, name)]
+            self.vars['list'].append(v)
+            return out
+        if c == 3:
+            return ['fh = open(%r, "r")' % name, 'print(repr(fh.readline()), repr(fh.readline()))', 'fh.close()']
+        return ['try:', "    open('no_such_file.txt')", 'except FileNotFoundError as missing:', "    print('missing', type(missing).__name__)"]
+
     # ------------------------------------------------------------ richer CS1/CS2 constructs
     def rich_stmt(self):
         r = self.r
+        if self.data_file and r.random() < 0.35:
+            return self.file_stmt()
         c = r.randrange(22)
         f = self.fresh('func')
         if c == 0:      # closure
@@ -704,7 +728,10 @@ def helper_module(rng):
     return stmts, ['hdouble', 'hdiv', 'hshow']
 
 
-def gen_program(rng, size=None, allow_input=True, with_helper=False, planted_raise=False):
+DATA_FILE_TEXT = 'alpha\nbeta 2\n\ngamma  \nlast line without newline'
+
+
+def gen_program(rng, size=None, allow_input=True, with_helper=False, planted_raise=False, with_data=False):
     size = size if size is not None else rng.randint(2, 9)
     helper = None
     files = {}
@@ -712,8 +739,11 @@ def gen_program(rng, size=None, allow_input=True, with_helper=False, planted_rai
         hst, fns = helper_module(rng)
         helper = ('helper', fns)
         files['helper.py'] = hst
-    g = ProgGen(rng, allow_input=allow_input, helper_module=helper)
+    g = ProgGen(rng, allow_input=allow_input, helper_module=helper, data_file='data.txt' if with_data else None)
     stmts = g.program(size, planted_raise=planted_raise)
+    if with_data:
+        files['data.txt'] = DATA_FILE_TEXT
+        stmts.append(g.file_stmt())
     if with_helper and 'helper' not in g.imported:
         stmts.insert(0, ['import helper'])
         stmts.append(['print(helper.hdouble(%d))' % rng.randint(0, 5)])
